@@ -9,6 +9,8 @@ the simulator's 1-byte form) interleaved with refreshes, for both clients, by in
 -/
 import GeckoModel.Model.Partial
 import GeckoModel.Properties.C16
+import GeckoModel.Proofs.Coop
+import GeckoModel.Generated.Skeletons
 
 namespace GeckoModel.C05
 open GeckoModel GeckoModel.Generated
@@ -184,5 +186,31 @@ example :
 /-- non-vacuity: two records in one message, repeated position, the simulator's 1-byte form -/
 example : parseStatpAsync [2, 0, 3, 1, 2, 0, 3, 7, 8] = some [⟨3, [1, 2]⟩, ⟨3, [7, 8]⟩] := by decide +kernel
 example : parseStatpSync [1, 1, 0, 0x5A] = some [⟨256, [0x5A]⟩] := by decide +kernel
+
+/-! ### why the awaitable client applies a partial update in ONE step of the reference above
+
+The skeletons of the acknowledging / decoding handler and of the spa's apply callback are regenerated from the source on every
+run; neither contains a suspension point, so between the pop of a STATP and the end of its application the event loop can only
+run somebody else at the two awaits of the consumer itself (and `no_suspension_no_aw`: no trace of them suspends). -/
+namespace Atomic
+open GeckoModel.Coop GeckoModel.Generated.Skeletons
+
+abbrev ackAndDecode := sk_driver_protocol_statusblock__GeckoAsyncPartialStatusBlockProtocolHandler_async_handle
+abbrev applyChanges := sk_async_spa__GeckoAsyncSpa__async_on_partial_status_update
+
+theorem partial_update_never_suspends : suspensions ackAndDecode = 0 ∧ suspensions applyChanges = 0 := by decide +kernel
+
+/-- … so every trace of the two is one atomic block: no other task (a refresh, a request, another update) can run inside -/
+theorem partial_update_is_atomic (sk : Sk) (h : sk = ackAndDecode ∨ sk = applyChanges) (t : List Ev) (o : Out) (hr : Run sk t o) :
+    ∀ e ∈ t, e.isAw = false := by
+  rcases h with rfl | rfl
+  · exact no_suspension_no_aw _ t o hr partial_update_never_suspends.1
+  · exact no_suspension_no_aw _ t o hr partial_update_never_suspends.2
+
+/-- non-vacuity: the handler does acknowledge and the callback does patch the block -/
+example : "queue_send" ∈ actions .call ackAndDecode ∧ "self.struct.replace_status_block_segment" ∈ actions .call applyChanges := by
+  decide +kernel
+
+end Atomic
 
 end GeckoModel.C05
